@@ -444,10 +444,14 @@ impl Property for C04 {
     fn id(&self) -> &'static str {
         "C04"
     }
-    fn generate(&self, rng: &mut Rng, _tier: Tier) -> Box<dyn Case> {
+    fn generate(&self, rng: &mut Rng, tier: Tier) -> Box<dyn Case> {
         let mut cfg = GenCfg::swarm(rng);
         cfg.tron = false;
         cfg.size = *rng.pick(&[2usize, 4, 6, 10]);
+        if tier == Tier::Thorough && rng.pct(35) {
+            // the thorough tier also explores larger programs
+            cfg.size *= 2;
+        }
         cfg.stop = rng.pct(50);
         cfg.gosub = rng.pct(80);
         cfg.fors = true;
